@@ -3,6 +3,9 @@ import common
 
 
 def main():
+    st = common.regenerate_source_tables(force_main=True)
+    for n, msg in st["failures"].items():
+        print("SETUP: source table %s not generated: %s" % (n, msg))
     ok, out = common.build_coq(["all"])
     print(out[-3000:])
     if not ok:
